@@ -1,7 +1,7 @@
 #!/bin/bash
 # like tools_mut.sh but on the scratch worktree /tmp/wt/confirm (so that /repo stays untouched while other runs use it)
 P=$1; ID=$2; TIER=${3:-quick}
-WT=/tmp/wt/confirm
+WT=${WT:-/tmp/wt/confirm}
 cd $WT || exit 9
 git checkout -q --detach $(git -C /repo rev-parse HEAD) && git checkout -q -- .
 git apply --check "$P" || { echo "PATCH DOES NOT APPLY"; exit 9; }
